@@ -17,3 +17,5 @@ for d in sorted(glob.glob('/verif/seeded/C*-m*')):
 PY
 cat /tmp/sweep_jobs.txt | xargs -P 6 -L 1 bash -c '/verif/tools/try_mutant.sh $0 "${1//_/ }" $2 >> '$out' 2>&1'
 echo done >> $out
+# the build cache grows by ~0.3 GB per worktree build: empty it after a sweep
+GOFLAGS=-mod=mod go clean -cache 2>/dev/null || true
